@@ -23,6 +23,7 @@ ASSUMPTIONS = ["lateral pairs whose oracle arc lies in [1e-10, 1e-5] are ambiguo
 EXHAUSTIVE = {"quick": False, "thorough": False}
 MIN_NONTRIVIAL = {"quick": 40, "thorough": 2000}
 RTOL = 1e-10
+ARC_ATOL = 1e-11
 
 
 def expected(self):
@@ -96,7 +97,15 @@ def _judge(self, result, what):
                 i, j = np.argwhere(extra)[0]
                 problems.append({"extra": [int(i), int(j)], "stored": D[i, j]})
             both = judged & e["A"] & stored
-            bad = both & ~np.isclose(D, want, rtol=RTOL, atol=0)
+            atol = np.zeros_like(want)
+            if what == "borders":
+                # an arc is known to ARC_ATOL absolutely, not relatively: on fine direction grids (N >= 300) the end points of a short arc
+                # are nearly degenerate Voronoi vertices and two correct computations differ by ~1e-13 (measured 1.4e-13 on an arc of
+                # 1.2e-3 of ico_300, i.e. 1.2e-10 relative - a false alarm of the first large-grid run at rtol alone)
+                for k in range(e["T"]):
+                    sl = slice(k * e["n_o"], (k + 1) * e["n_o"])
+                    atol[sl, sl] = ARC_ATOL * (e["R"][k + 1] ** 2 - e["R"][k] ** 2) / 2
+            bad = both & (np.abs(D - want) > RTOL * np.abs(want) + atol)
             if bad.any():
                 i, j = np.argwhere(bad)[0]
                 problems.append({"pair": [int(i), int(j)], "reported": D[i, j], "expected": want[i, j],
